@@ -89,15 +89,25 @@ def zd_tokens(chunks, level, trailer):
 
 
 class Case:
-    def __init__(self, level, cs, rp, objs, hdr=None):
+    def __init__(self, level, cs, rp, objs, hdr=None, open_level=None, noclose=False):
         self.level, self.cs, self.rp, self.objs, self.hdr = level, cs, rp, objs, hdr or {}
+        self.open_level = open_level      # compressionLevel at open(); `level` is assigned right after open() (API use of a public member)
+        self.noclose = noclose            # the File is destroyed without an explicit close()
+        self.pause = 0                    # number of 300 ms pauses of the application behind the first object (and before it)
 
-    def opts(self):
+    def opts(self, model=False):
         h = ' '.join('h%d=%s' % (k, v.hex()) for k, v in sorted(self.hdr.items()))
-        return 'level=%d cs=%d rp=%d %s' % (self.level, self.cs, 1 if self.rp else 0, h)
+        lv = self.level if (model or self.open_level is None) else self.open_level
+        return 'level=%d cs=%d rp=%d %s' % (lv, self.cs, 1 if self.rp else 0, h)
 
-    def tail(self):
-        return ' '.join(';; ' + objline(cn, a) for cn, a in self.objs)
+    def tail(self, model=False):
+        t = ' '.join(';; ' + objline(cn, a) for cn, a in self.objs)
+        if model:
+            return t
+        if self.pause and self.objs:
+            z = ' '.join([';; @z'] * self.pause)
+            t = z + ' ;; ' + objline(*self.objs[0]) + ' ' + z + ' ' + ' '.join(';; ' + objline(cn, a) for cn, a in self.objs[1:])
+        return (';; @level=%d ' % self.level if self.open_level is not None else '') + t + (' ;; @noclose' if self.noclose else '')
 
 
 def gen_cases(summary, rng, tier, classes, exact, ncases, suspects=()):
@@ -206,7 +216,7 @@ def run_cases(pipe, res, cases, fexe, cexe, want_model=True):
         chunks = split_chunks(B, c.cs)
         o['stream'] = B
         o['chunks'] = chunks
-        mreq.append('writefile %s %s %s' % (c.opts(), ' '.join(zd_tokens(chunks, c.level, c.rp)), c.tail()))
+        mreq.append('writefile %s %s %s' % (c.opts(model=True), ' '.join(zd_tokens(chunks, c.level, c.rp)), c.tail(model=True)))
     if want_model and lib.model_ok():
         mw, rc, err = lib.psession(drv, mreq, timeout=3600)
         if len(mw) != len(mreq):
